@@ -323,3 +323,9 @@ def canaries(tier):
         {'name': 'wrong-dispatch-ito-scalar', 'job': 'ito-scalar-B2d2m1-nograd',
          'patches': [(M, "                NOISE_TYPES.scalar: self.f_corrected_default,\n", "                NOISE_TYPES.scalar: self.f_uncorrected,\n")]},
     ]
+
+
+def native_replay(ob):
+    """Observable consequence of a wrong adjoint vector field: the adjoint gradient no longer agrees with backpropagation at a fine step."""
+    from props.base import run_native
+    return run_native('c09')
